@@ -601,6 +601,102 @@ def check_foreign(case):
     return dict(nt=True, cls=[typ, f"edits:{len(case['edits'])}"])
 
 
+# ------------------------------------------------------------------ other spellings of the same message
+# The same message spelled differently (all spellings the Blue Books allow and the reader of the unchanged
+# tree accepts) decodes to the same object; the file-object API (dump / load) is the string API.
+
+RESPELL = {
+    "kvn": ["crlf", "no-space-eq", "wide-eq", "no-blank-lines", "extra-blank-lines", "no-units", "doy-dates",
+            "no-fraction", "header-comment"],
+    "xml": ["compact", "single-quotes", "no-units", "doy-dates", "no-fraction", "xml-comment"],
+}
+_CAL = re.compile(r"(\d{4})-(\d{2})-(\d{2})T(\d{2}:\d{2}:\d{2}\.\d{6})")
+
+
+def _doy(m):
+    from datetime import date
+
+    return f"{m.group(1)}-{date(int(m.group(1)), int(m.group(2)), int(m.group(3))).timetuple().tm_yday:03d}T{m.group(4)}"
+
+
+def respell(text, fmt, how):
+    if how == "crlf":
+        return text.replace("\n", "\r\n")
+    if how == "doy-dates":
+        return _CAL.sub(_doy, text)
+    if how == "no-fraction":
+        return re.sub(r"(T\d{2}:\d{2}:\d{2})\.000000", r"\1", text)
+    lines = text.split("\n")
+    if fmt == "kvn":
+        if how in ("no-space-eq", "wide-eq"):
+            sep = "=" if how == "no-space-eq" else "    =   "
+            lines = [(ln.partition("=")[0].rstrip() + sep + ln.partition("=")[2].lstrip()) if "=" in ln
+                     and not ln.startswith("COMMENT") else ln for ln in lines]
+        elif how == "no-blank-lines":
+            lines = [ln for ln in lines if ln.strip()]
+        elif how == "extra-blank-lines":
+            lines = [x for ln in lines for x in ((ln, "") if ln.strip() and "=" in ln else (ln,))]
+        elif how == "no-units":
+            lines = [re.sub(r"\s*\[[^\]]*\]\s*$", "", ln) if "=" in ln and not ln.startswith(("COMMENT", "USER_DEFINED"))
+                     else ln for ln in lines]
+        elif how == "header-comment":
+            lines[3:3] = ["COMMENT written by another producer", "COMMENT second line"]
+    else:
+        if how == "compact":
+            return "".join(ln.strip() if k else ln + "\n" for k, ln in enumerate(lines))
+        if how == "single-quotes":
+            lines = [ln if ln.startswith("<?xml") or "'" in ln else re.sub(r'="([^"]*)"', r"='\1'", ln) for ln in lines]
+        elif how == "no-units":
+            lines = [re.sub(r' units="[^"]*"', "", ln) for ln in lines]
+        elif how == "xml-comment":
+            return text.replace("<body>", "<!-- another producer --><body>").replace("<data>", "<data><!-- c -->")
+    return "\n".join(lines)
+
+
+@st.composite
+def respell_case(draw):
+    obj = draw(st.one_of(G.opm_spec(), G.oem_spec(), G.omm_spec(), G.tdm_spec()))
+    fmt = draw(st.sampled_from(FMTS))
+    return dict(facet="respell", obj=obj, fmt=fmt, how=draw(st.sampled_from(RESPELL[fmt] + ["file-object"])),
+                kw=dict(originator=draw(G.opt(G.text(10), 2))))
+
+
+def check_respell(case):
+    import io
+
+    from beyond.io import ccsds
+
+    spec = case["obj"]
+    typ = spec["type"]
+    fmt = case["fmt"]
+    obj = G.build(spec)
+    kw = {k: v for k, v in case["kw"].items() if v is not None}
+    text = ccsds.dumps(obj, fmt=fmt, **kw)
+    ref = E.describe(ccsds.loads(text), typ)
+    how = case["how"]
+    if how == "file-object":
+        fp = io.StringIO()
+        ccsds.dump(obj, fp, fmt=fmt, **kw)
+        text2 = fp.getvalue()
+        strip = lambda t: [ln for ln in t.split("\n") if "CREATION_DATE" not in ln]  # noqa: E731
+        if strip(text2) != strip(text):
+            a, b = strip(text), strip(text2)
+            k = next((i for i, (x, y) in enumerate(zip(a, b)) if x != y), min(len(a), len(b)))
+            raise Violation("dump-differs-from-dumps", f"dump(obj, fp, ...) wrote line {k + 1} {b[k:k + 1]} where dumps gives "
+                                                       f"{a[k:k + 1]}", fmt=fmt)
+        got = E.describe(ccsds.load(io.StringIO(text2)), typ)
+    else:
+        text2 = respell(text, fmt, how)
+        if text2 == text:
+            return dict(nt=False, cls=[f"{how}:no-effect"])
+        got = E.describe(ccsds.loads(text2), typ)
+    fields = E.diff(ref, got, typ, E.Tol(coord=1e-9, epoch=1e-9))
+    if fields:
+        f, k, m = fields[0]
+        raise Violation(f"respell:{how}:{k}", f"the {fmt} message spelled with {how} decodes differently: {m}", fmt=fmt, how=how)
+    return dict(nt=True, cls=[f"{fmt}:{how}", typ])
+
+
 # ------------------------------------------------------------------ fuzz (atheris, thorough tier)
 
 FUZZ_RUNS = 12000
@@ -725,6 +821,14 @@ FINDINGS = {
                                               or s["tle"]["etype"] != 0)),
     "c13-kvn-bracket-in-text": _p(lambda k, d: k == "kvn-bracket-in-text" and d.get("fmt") == "kvn",
                                   lambda s, d: s["sample"].startswith("omm_bluebook")),
+    # TDM writers print each measure date with its own clock under the TIME_SYSTEM of the first one
+    "c13-tdm-dates-keep-their-label": _p(lambda k, d: k in ("tdm-epoch", "kvn-vs-xml:tdm-epoch"),
+                                         lambda s, d: s["type"] == "tdm" and _mixed(s)),
+    # OPM / OEM writers run change_scale() on dates that already carry the declared label: up to 2 us
+    "c13-same-label-date-rounded-twice": lambda facet, case, kind, msg, data: (
+        kind in ("epoch", "man-epoch") and case["obj"]["type"] in ("opm", "oem")
+        and (m := re.search(r"instant differs by (-?[0-9.e+-]+) s", msg)) is not None
+        and 1e-6 < abs(float(m.group(1))) <= 2.1e-6),
     "c13-xml-empty-text": _p(lambda k, d: k == "xml-empty-text", lambda s, d: _empty_text(s)),
     "c13-kvn-man-comment-split": _p(lambda k, d: k == "man-comment" and d.get("fmt") == "kvn", _comment_token),
 }
@@ -770,6 +874,9 @@ FACETS = [
     Facet("foreign", lambda s, t: foreign_case(sample_names()), check_foreign, setup=_setup_jpl,
           rule="the (possibly digit-edited) sample message was accepted by the reader",
           quick=(1, 250), thorough=(4, 2500)),
+    Facet("respell", lambda s, t: respell_case(), check_respell, setup=_setup,
+          rule="the respelling changed the text",
+          quick=(3, 120), thorough=(6, 1500)),
     Facet("fuzz", check=check_fuzz, runner=fuzz_runner, setup=_setup_jpl,
           rule="the (edited) message was accepted by the reader, written in both encodings and read back equal",
           quick=(1, 0), thorough=(4, FUZZ_RUNS)),
